@@ -86,6 +86,9 @@ pub struct UnitSc {
 pub enum C05Sc {
     Unit(UnitSc),
     Conn(Box<ConnScenario>),
+    /// logins through a real `Listener` whose deadline strikes in the encrypted phase (routing stalls): whatever the
+    /// listener itself puts on the socket at the end must be part of the one encrypted stream as well
+    Listener(Box<crate::net::NetScenario>),
 }
 
 #[derive(Default)]
@@ -548,6 +551,37 @@ fn gen_conn(rng: &mut Rng) -> ConnScenario {
     }
 }
 
+fn gen_listener(rng: &mut Rng) -> crate::net::NetScenario {
+    use crate::net::{NetCfg, NetClient, NetScenario};
+    let timeout_s = *rng.pick(&[3u64, 5, 20, 40]);
+    let mut services = Services::default();
+    services.discovery = Script::always(
+        *rng.pick(&[None, None, Some(90_000_000_000u64), Some(0)]),
+        DiscRes::Targets(vec![TargetSpec { id: "t1".into(), addr: "10.1.2.3:25570".into(), meta: Default::default() }]),
+    );
+    let n = rng.range(1, 2);
+    let clients = (0..n)
+        .map(|i| {
+            let intent = if rng.chance(1, 2) { 2 } else { 3 };
+            let mut spec = ClientSpec::base(rng, intent);
+            spec.close_on_end_ns = None;
+            spec.coalesce = rng.chance(1, 2);
+            spec.info_delay_ns = *rng.pick(&[0u64, 1_000_000_000]);
+            NetClient { connect_at_ns: rng.range(0, 2_000) * 1_000_000, peer: format!("192.0.2.{}:{}", 30 + i, 41_000 + i), spec, wplan: vec![] }
+        })
+        .collect();
+    NetScenario {
+        seed: rng.next_u64(),
+        cfg: NetCfg { secret: None, expiry: None, max_frame: None, timeout_ns: timeout_s * 1_000_000_000, proxy: None, limiter: None, use_start: false },
+        wall: Default::default(),
+        services,
+        clients,
+        stop_at_ns: None,
+        stop_before: false,
+        cap_ns: (2 * timeout_s + 30) * 1_000_000_000,
+    }
+}
+
 impl Check for C05 {
     type Sc = C05Sc;
     fn id(&self) -> &'static str {
@@ -576,6 +610,9 @@ impl Check for C05 {
         }
     }
     fn generate(&self, rng: &mut Rng, index: u64, _tier: Tier) -> C05Sc {
+        if index % 25 == 24 {
+            return C05Sc::Listener(Box::new(gen_listener(rng)));
+        }
         if index % 5 == 4 {
             C05Sc::Conn(Box::new(gen_conn(rng)))
         } else {
@@ -584,6 +621,29 @@ impl Check for C05 {
     }
     fn execute(&self, sc: &C05Sc) -> RunReport {
         match sc {
+            C05Sc::Listener(n) => {
+                if !super::common::net_domain_ok(n) || n.cfg.use_start || n.cfg.proxy.is_some() || n.cfg.limiter.is_some() || n.stop_at_ns.is_some() || n.cfg.timeout_ns < 1_000_000_000 || n.clients.is_empty()
+                    || n.clients.iter().any(|c| !matches!(c.spec.intent, 2 | 3) || c.spec.script.is_some() || !c.spec.mutations.is_empty() || !matches!(c.spec.enc, crate::client::EncVariant::Honest) || c.spec.shared_secret.len() != 16 || !c.wplan.is_empty() || !c.spec.cuts.is_empty() || c.spec.preamble.is_some())
+                {
+                    return RunReport::default();
+                }
+                let out = crate::net::run_net(n);
+                let mut rep = RunReport { runs: 1, trace_hash: out.trace_hash(), full_hash: out.full_hash(), sim_ns: out.end_ns, ..Default::default() };
+                rep.merge_counts(&out.faults, &out.probes);
+                rep.nontrivial = true;
+                *rep.faults.entry("listener_deadline_in_the_encrypted_phase".into()).or_insert(0) += 1;
+                if !out.panics.is_empty() {
+                    rep.violate("no_panic", format!("panicked: {}", out.panics[0].replace('\n', " ")));
+                }
+                for (i, c) in out.clients.iter().enumerate() {
+                    if let Some(u) = &c.view.undecodable {
+                        rep.violate("conn_stream_decodes", format!("client {i} cannot decode what the server put on the socket (encryption {}): {u}", if c.view.encrypted { "on" } else { "off" }));
+                    } else if c.view.partial_at_eof != 0 {
+                        rep.violate("conn_stream_decodes", format!("client {i}: {} bytes at the end of the stream that are no whole frame", c.view.partial_at_eof));
+                    }
+                }
+                rep
+            }
             C05Sc::Unit(u) => run_unit(u),
             C05Sc::Conn(c) => {
                 // outside this check's domain (shrinking may propose such scenarios): anything but an honest, complete login
